@@ -147,6 +147,21 @@ def var_max_len(var) -> int:
     return (1 << (8 * var.size)) - 1
 
 
+_TEXT_HINTS = ("Name", "Text", "Title", "Description", "Message", "Label", "Method", "Filename")
+_BINARY_HINTS = ("Binary", "Data", "Handle", "Color", "Texture", "Params", "NameValue")
+
+
+def is_text_like(var):
+    """The harness's own copy of the naming convention that decides which Fixed/Variable fields the codec presents as
+    text (a field matching a binary hint is never text).  Deliberately not read from the template object under test:
+    the scope of a check must not move with the code it checks."""
+    if var.type not in (MsgType.MVT_FIXED, MsgType.MVT_VARIABLE):
+        return False
+    if any(h in var.name for h in _BINARY_HINTS):
+        return False
+    return any(h in var.name for h in _TEXT_HINTS)
+
+
 def gen_value(rng, var, opts):
     """Return a value spec for one template variable, in the variable's wire domain."""
     t = var.type
@@ -181,7 +196,7 @@ def gen_value(rng, var, opts):
         return ["ip", ".".join(str(rng.choice([0, 1, 127, 255, rng.randint(0, 255)])) for _ in range(4))]
     if t == MsgType.MVT_FIXED:
         n = var.size
-        text_like = var.probably_text and not var.probably_binary
+        text_like = is_text_like(var)
         if text_like and n >= 1 and rng.random() < 0.3 and not opts.get("bytes_only"):
             return ["s", "".join(rng.choice("abcXYZ09") for _ in range(n - 1))]
         b = bytes(rng.choice([0, 0xff, rng.getrandbits(8)]) for _ in range(n))
@@ -190,7 +205,7 @@ def gen_value(rng, var, opts):
         return ["b", b]
     if t == MsgType.MVT_VARIABLE:
         max_len = min(var_max_len(var), opts.get("max_var_len", 1 << 16))
-        text_like = var.probably_text and not var.probably_binary
+        text_like = is_text_like(var)
         if text_like and not opts.get("bytes_only") and rng.random() < 0.7:
             s = rand_text(rng, max_len, xml_safe=opts.get("xml_safe", False))
             if s is not None:
